@@ -16,6 +16,20 @@ KNOWN_FILE = os.path.join(VERIF, "known_findings.json")
 EXIT_OK, EXIT_VIOLATION, EXIT_FRAMEWORK = 0, 1, 2
 
 
+UNIT_TEST = '''"""replays one recorded violation of %(prop)s against the current tree (run with /venv/bin/python -m pytest <this file>)"""
+import json, sys
+sys.path[:0] = ["%(verif)s", "%(repo)s"]
+
+
+def test_replay():
+    import importlib
+    mod = importlib.import_module("%(mod)s")
+    case = json.load(open("%(path)s"))["case"]
+    res = getattr(mod, "%(func)s")(case)
+    assert not res.get("violations"), [v["oracle"] + ": " + v["msg"] for v in res["violations"]]
+'''
+
+
 def load_known():
     if not os.path.exists(KNOWN_FILE):
         return []
@@ -141,6 +155,9 @@ class Run:
             with open(path, "w") as f:
                 json.dump(dict(property=self.prop, case=case, violation=v, func=getattr(self.mod, "REPLAY_FUNC", "run_case")), f, indent=1,
                           sort_keys=True, default=str)
+            with open(path[:-5] + "_test.py", "w") as f:   # plain unit test replaying the case without any explorer
+                f.write(UNIT_TEST % dict(verif=VERIF, repo=REPO, prop=self.prop, mod=self.mod.__name__,
+                                         func=getattr(self.mod, "REPLAY_FUNC", "run_case"), path=path))
             reported.append((path, v))
         for eid, (e, case, v) in known_hits.items():
             print("KNOWN-FINDING: property=%s %s [%s]" % (self.prop, e["what"], eid))
